@@ -260,10 +260,12 @@ type scenario struct {
 
 // Numbers of backend operations of the building blocks (read off files.go; the extended file's Close is called
 // twice by the defer+explicit close idiom, each being one backend operation):
-//   Exists(dir) = Stat + Open + Readdirnames + Close + Close = 5        Exists(file) = 1
-//   IsDir / IsFile = Exists + Stat <= 6          isDirEmpty = Open + Readdirnames + Close + Close = 4
-//   IsEmpty(dir) = Exists + IsFile + isDirEmpty <= 15                   Ls(dir) = IsDir + Open + Readdirnames + 2 Close <= 10
-//   MkDir = Exists (+ MkdirAll) <= 6
+//
+//	Exists(dir) = Stat + Open + Readdirnames + Close + Close = 5        Exists(file) = 1
+//	IsDir / IsFile = Exists + Stat <= 6          isDirEmpty = Open + Readdirnames + Close + Close = 4
+//	IsEmpty(dir) = Exists + IsFile + isDirEmpty <= 15                   Ls(dir) = IsDir + Open + Readdirnames + 2 Close <= 10
+//	MkDir = Exists (+ MkdirAll) <= 6
+//
 // and the longest stretch between two context tests of each family:
 const (
 	// walk(): loop test -> Lstat -> walk's own test -> fn -> Ls (<= 10) -> loop test; the callbacks of the
